@@ -26,6 +26,7 @@ struct RunCtx
     std::map<std::string, uint64_t> counters;
     std::vector<std::string> samples;
     uint64_t event_hash{1469598103934665603ULL};
+    uint64_t interleaving_hash{0};  // hash of the run's sequence of (client, entry point, fault kind); 0 = the profile has none
     int nsteps{0};
     int violations{0};
     std::string hint;  // what was done to the input of the current call (part of crash signatures)
